@@ -207,6 +207,13 @@ Proof.
   - intros H0. destruct Hm as [->|Hm]; auto.
 Qed.
 
+Lemma ismax_iff (P Q : R -> Prop) N : ismax P N -> (forall x, P x <-> Q x) -> ismax Q N.
+Proof.
+  intros (Hub & Hmem) H. split.
+  - intros x Hx. apply Hub. now apply H.
+  - destruct Hmem as [->|Hm]; [now left|right; now apply H].
+Qed.
+
 Lemma ismax_scale P Q N N' k : ismax P N -> ismax Q N' -> (forall x, P x -> 0 <= x) -> 0 <= k ->
   (forall x, P x -> Q (k * x)) -> (forall y, Q y -> exists x, P x /\ y = k * x) -> N' = k * N.
 Proof.
